@@ -105,6 +105,106 @@ fn tl_random(args: &Args, rep: &mut Report, prop: &'static str, n: u64) {
     });
 }
 
+fn tl_c03(args: &Args, rep: &mut Report, n: u64) {
+    let seed = args.seed;
+    run_cases(args, rep, "tl_c03_matrix", "C03/tl_c03".to_string(), n, move |rt, idx, log| {
+        let o = tl::c03::run_case(rt, seed, idx, log);
+        let j = if log { tl::run::case_json("tl_c03", "C03", seed, idx, &o, if o.violations.is_empty() { 80 } else { 100000 }) } else { Json::Null };
+        (o, j).into()
+    });
+    // the matrix: every (suspension point class x abandonment kind) cell must have been exercised
+    let cov = rep.engine("tl_c03_matrix");
+    let mut missing = Vec::new();
+    for pc in tl::c03::POINT_CLASSES {
+        for k in tl::c03::KINDS {
+            if pc == "wait_for_slot" && k == "Panic" {
+                continue; // no callback runs while waiting for a slot: nothing can panic there
+            }
+            if cov.counters.get(&format!("c03cell:{}:{}", pc, k)).copied().unwrap_or(0) == 0 {
+                missing.push(format!("{}x{}", pc, k));
+            }
+        }
+    }
+    if !missing.is_empty() {
+        cov.inconclusive.push(format!("abandonment matrix cells never exercised: {}", missing.join(",")));
+    }
+}
+
+/// C04: exhaustive enumeration of the outcome tree of one get().
+fn tl_c04_enum(args: &Args, rep: &mut Report, max_hooks: usize, max_idle: usize) {
+    let cfgs = Arc::new(tl::c04::configs(max_hooks, max_idle));
+    let n = cfgs.len();
+    let jobs = args.jobs.max(1);
+    let outs = vh_common::parallel(jobs, {
+        let cfgs = cfgs.clone();
+        move |wk| {
+            let rt = tl::run::new_runtime();
+            let mut cov = Coverage::default();
+            let mut finds: Vec<Finding> = Vec::new();
+            let mut i = wk;
+            while i < n {
+                let c = &cfgs[i];
+                for suspend_ok in [false, true] {
+                    if suspend_ok && c.flavors == 1 {
+                        continue;
+                    }
+                    let mut prefix: Vec<u8> = Vec::new();
+                    loop {
+                        let (out, taken) = tl::c04::run_path(&rt, c, &prefix, suspend_ok, false);
+                        cov.evaluations += 1;
+                        cov.events += out.events;
+                        let _ = cov.distinct.insert(out.hash);
+                        if out.nontrivial {
+                            let _ = cov.nontrivial.insert(out.hash);
+                        }
+                        let _ = cov.schedules.insert(out.sched);
+                        cov.states.extend(out.states.iter().copied());
+                        for (k, v) in &out.counters {
+                            if k.starts_with("c04:") || k.starts_with("outcome:") || k.starts_with("result:") {
+                                cov.add(k, *v);
+                            }
+                        }
+                        if out.foreign > 0 {
+                            cov.bump("cases_stopped_by_oracle_of_other_property");
+                        }
+                        if !out.violations.is_empty() && finds.len() < 4 {
+                            let (full, _) = tl::c04::run_path(&rt, c, &prefix, suspend_ok, true);
+                            let v = full.violations.first().cloned().unwrap_or_else(|| out.violations[0].clone());
+                            let j = Json::obj()
+                                .with("engine", "tl_c04")
+                                .with("profile_prop", "C04")
+                                .with("config_index", i)
+                                .with("max_hooks", max_hooks)
+                                .with("max_idle", max_idle)
+                                .with("suspend_ok", suspend_ok)
+                                .with("prefix", prefix.iter().map(|x| *x as u64).collect::<Vec<_>>())
+                                .with("config", full.cfg.as_str())
+                                .with("log", full.log.iter().map(|s| Json::from(s.as_str())).collect::<Vec<_>>());
+                            finds.push(Finding { sig: format!("C04/tl_c04/{}", v.oracle), v, replay: j });
+                        } else if cov.samples.is_empty() && out.nontrivial && prefix.len() > 2 {
+                            let (full, _) = tl::c04::run_path(&rt, c, &prefix, suspend_ok, true);
+                            cov.sample(Json::obj().with("config", full.cfg.as_str()).with("log", full.log.iter().take(60).map(|s| Json::from(s.as_str())).collect::<Vec<_>>()));
+                        }
+                        match tl::c04::next_prefix(&taken) {
+                            Some(p) => prefix = p,
+                            None => break,
+                        }
+                    }
+                    cov.bump("c04:trees_completed");
+                }
+                i += jobs;
+            }
+            (cov, finds)
+        }
+    });
+    for (cov, finds) in outs {
+        rep.engine("tl_c04_enum").merge(cov);
+        rep.add_findings(finds);
+    }
+    rep.exhaustive = Some(true);
+    let _ = rep.extra.set("exhaustive_scope", format!("outcome tree of one get(): 0..={} hooks per kind (async / sync / mixed), 0..={} idle objects, both queue modes; outcomes per callback: ok, error, panic, and (async) caller gives up while suspended", max_hooks, max_idle));
+}
+
 fn utl_random(args: &Args, rep: &mut Report, prop: &'static str, n: u64) {
     let p = utl::uprofile_for(prop);
     let seed = args.seed;
@@ -230,6 +330,112 @@ fn th_chaos_managed(args: &Args, rep: &mut Report, prop: &'static str, runs: u64
     }
 }
 
+fn th_sweep_unmanaged(args: &Args, rep: &mut Report, prop: &'static str) {
+    use th::unmanaged::*;
+    let mut scenarios: Vec<UScenario> = Vec::new();
+    for st in ustates() {
+        for a in ua_ops(&st) {
+            for (point, hit) in udiscover(prop, st, a) {
+                for b in ub_ops(&st) {
+                    scenarios.push(UScenario { state: st, a, point, hit, b });
+                }
+            }
+        }
+    }
+    let scenarios = Arc::new(scenarios);
+    let n = scenarios.len();
+    let jobs = args.jobs.max(1);
+    let outs = vh_common::parallel(jobs, {
+        let scenarios = scenarios.clone();
+        move |wk| {
+            let mut cov = Coverage::default();
+            let mut finds: Vec<Finding> = Vec::new();
+            let mut i = wk;
+            while i < n {
+                let sc = &scenarios[i];
+                let out = run_usweep(prop, sc);
+                cov.evaluations += 1;
+                cov.events += out.events;
+                let mut h = vh_common::Hasher::default();
+                h.str(&sc.sig());
+                let _ = cov.distinct.insert(h.0);
+                if out.reached {
+                    let _ = cov.nontrivial.insert(h.0);
+                    cov.bump(&format!("window:{}", sc.point));
+                    cov.bump(&format!("racing_op:{:?}", sc.b));
+                } else {
+                    cov.bump("point_not_reached_A_waiting_or_finished");
+                }
+                let _ = cov.schedules.insert(out.trace_hash);
+                let _ = cov.states.insert(out.end_state);
+                if let Some(m) = out.inconclusive {
+                    cov.inconclusive.push(m);
+                }
+                if out.foreign > 0 {
+                    cov.bump("cases_stopped_by_oracle_of_other_property");
+                }
+                if let Some(v) = out.violations.first() {
+                    if finds.len() < 6 {
+                        finds.push(Finding { v: v.clone(), sig: format!("{}/uth_sweep/{}/{}", prop, v.oracle, sc.sig()), replay: out.desc.clone() });
+                    }
+                } else if cov.samples.is_empty() && out.reached {
+                    cov.sample(out.desc);
+                }
+                i += jobs;
+            }
+            (cov, finds)
+        }
+    });
+    for (cov, finds) in outs {
+        rep.engine("uth_sweep").merge(cov);
+        rep.add_findings(finds);
+    }
+}
+
+fn th_chaos_unmanaged(args: &Args, rep: &mut Report, prop: &'static str, runs: u64) {
+    use th::unmanaged::*;
+    let seed = args.seed;
+    let jobs = (args.jobs / 4).max(1);
+    let outs = vh_common::parallel(jobs, move |wk| {
+        let mut cov = Coverage::default();
+        let mut finds: Vec<Finding> = Vec::new();
+        let mut i = wk as u64;
+        while i < runs {
+            let mut rng = vh_common::Rng::derive(seed, vh_common::fnv1a(prop.as_bytes()) ^ 0x7d, i);
+            let threads = rng.range(2, 8) as usize;
+            let ops = rng.range(20, 150) as usize;
+            let max_size = rng.range(0, 4) as usize;
+            let with_close = prop == "C12" || rng.chance(1, 10);
+            let out = run_uchaos(prop, threads, ops, max_size, with_close, seed.wrapping_mul(7919).wrapping_add(i));
+            cov.evaluations += 1;
+            cov.events += out.events;
+            let _ = cov.distinct.insert(out.trace_hash);
+            if out.nontrivial {
+                let _ = cov.nontrivial.insert(out.trace_hash);
+            }
+            let _ = cov.schedules.insert(out.trace_hash);
+            let _ = cov.states.insert(out.end_state);
+            cov.add("schedule_points_hit", out.points as u64);
+            if out.foreign > 0 {
+                cov.bump("cases_stopped_by_oracle_of_other_property");
+            }
+            if let Some(v) = out.violations.first() {
+                if finds.len() < 4 {
+                    finds.push(Finding { v: v.clone(), sig: format!("{}/uth_chaos/{}", prop, v.oracle), replay: out.desc.clone() });
+                }
+            } else if cov.samples.is_empty() && out.nontrivial {
+                cov.sample(out.desc);
+            }
+            i += jobs as u64;
+        }
+        (cov, finds)
+    });
+    for (cov, finds) in outs {
+        rep.engine("uth_chaos").merge(cov);
+        rep.add_findings(finds);
+    }
+}
+
 fn rule_for(prop: &str) -> &'static str {
     match prop {
         "C01" => "cases = seeded random task-level histories (plus thread-level scenarios); distinct = hash of the full event log; non-trivial = at least one admission happened with the pool one below its limit, after waiting, or with other callers waiting",
@@ -257,6 +463,31 @@ fn main() {
         "C05" | "C12" => {
             if args.engine_enabled("utl") {
                 utl_random(&args, &mut rep, prop, sc(30_000.0, 1_000_000.0));
+            }
+            if args.engine_enabled("uth_sweep") {
+                th_sweep_unmanaged(&args, &mut rep, prop);
+            }
+            if args.engine_enabled("uth_chaos") {
+                th_chaos_unmanaged(&args, &mut rep, prop, sc(150.0, 3000.0));
+            }
+        }
+        "C03" => {
+            if args.engine_enabled("tl_c03") {
+                tl_c03(&args, &mut rep, sc(20_000.0, 600_000.0));
+            }
+            if args.engine_enabled("tl") {
+                tl_random(&args, &mut rep, prop, sc(10_000.0, 300_000.0));
+            }
+        }
+        "C04" => {
+            if args.engine_enabled("tl_c04") {
+                match args.tier {
+                    vh_common::Tier::Quick => tl_c04_enum(&args, &mut rep, 1, 2),
+                    vh_common::Tier::Thorough => tl_c04_enum(&args, &mut rep, 2, 3),
+                }
+            }
+            if args.engine_enabled("tl") {
+                tl_random(&args, &mut rep, prop, sc(20_000.0, 600_000.0));
             }
         }
         "C10" => {
@@ -298,6 +529,19 @@ fn replay(args: &Args) {
         "tl" => {
             let p = tl::run::profile_for(&prop);
             let out = tl::run::run_history(&rt, &p, seed, idx, true);
+            (out.log, out.violations)
+        }
+        "tl_c03" => {
+            let out = tl::c03::run_case(&rt, seed, idx, true);
+            (out.log, out.violations)
+        }
+        "tl_c04" => {
+            let geti = |k: &str| j.get(k).and_then(Json::as_i64).unwrap_or(0) as usize;
+            let cfgs = tl::c04::configs(geti("max_hooks"), geti("max_idle"));
+            let c = &cfgs[geti("config_index")];
+            let prefix: Vec<u8> = j.get("prefix").and_then(Json::as_arr).map(|a| a.iter().filter_map(Json::as_i64).map(|x| x as u8).collect()).unwrap_or_default();
+            let suspend_ok = matches!(j.get("suspend_ok"), Some(Json::Bool(true)));
+            let (out, _) = tl::c04::run_path(&rt, c, &prefix, suspend_ok, true);
             (out.log, out.violations)
         }
         "utl" => {
